@@ -60,6 +60,7 @@ def parseRt (c : Char) : Option Rt :=
   else if c == 't' then some .timeout
   else if c == 'b' then some .broken
   else if c == 'o' then some .other
+  else if c == '!' then some .panic
   else none
 
 def parseAttempt (s : String) : Option Attempt :=
@@ -71,6 +72,7 @@ def parseAttempt (s : String) : Option Attempt :=
     else if f == 'y' then (parseRt r).map fun x => ⟨.replace 1, x⟩
     else if f == 'z' then (parseRt r).map fun x => ⟨.replace 2, x⟩
     else if f == 'u' then (parseRt r).map fun x => ⟨.replace 3, x⟩
+    else if f == '!' then (parseRt r).map fun x => ⟨.panic, x⟩
     else none
   | _ => none
 
@@ -117,6 +119,7 @@ def parseStep (cfg : Cfg) (n : Nat) (s : String) : Option Step :=
     | some k =>
       if c == 'u' then (if k > 63 then none else some (.up (flipTarget cfg k)))
       else if c == 'd' then (if k > 63 then none else some (.down (flipTarget cfg k)))
+      else if c == 'x' then (if k > 63 then none else some (.remove (flipTarget cfg k)))
       else if k ≥ n then none
       else if c == 'i' then some (.inv k) else if c == 'f' then some (.fin k) else none
     | none => none
@@ -144,6 +147,12 @@ def renderConn (cfg : Cfg) (conn : Nat → Int) : String :=
     if conn b != 0 then some (label cfg b ++ "=" ++ toString (conn b)) else none
   if parts.isEmpty then "0" else "+".intercalate parts
 
+def renderFails (cfg : Cfg) (bs : BalSt) : String :=
+  let parts := (allBids cfg).filterMap fun b =>
+    let f := (bs.fails.getD (b / 8) []).getD (b % 8) 0
+    if f != 0 then some (label cfg b ++ "=" ++ toString f) else none
+  if parts.isEmpty then "0" else "+".intercalate parts
+
 def Err.str : Err → String
   | .nil => "nil" | .connect => "connect" | .write => "write" | .rhdr => "rhdr" | .timeout => "timeout"
   | .broken => "broken" | .other => "other" | .toomany => "toomany" | .blackhole => "blackhole"
@@ -159,20 +168,35 @@ def renderEv (cfg : Cfg) (pick : Nat) : Ev → String
     (if pick != b then label cfg pick ++ "~" else "") ++ label cfg b ++ "@" ++ renderConn cfg snap
   | .fin b _ => label cfg b ++ "F"
 
+/-- the last event of a clusterInvoke that was left by a panicking HandleForward filter is shown as `<backend>P` -/
+def renderEvs (cfg : Cfg) (r : LR) : List String :=
+  let l := (r.evs.zip r.st.picks.reverse).map fun (e, pk) => renderEv cfg pk e
+  if r.act == 9 then
+    match r.evs.getLast? with
+    | some (.fin b _) => l.dropLast ++ [label cfg b ++ "P"]
+    | _ => l
+  else l
+
 def renderInv (cfg : Cfg) (k : Nat) (r : LR) : String :=
-  "i" ++ toString k ++ ":" ++ ",".intercalate ((r.evs.zip r.st.picks.reverse).map fun (e, pk) => renderEv cfg pk e) ++
-  ">res=" ++ (match r.res with | some s => toString s | none => "nil") ++
-  ",err=" ++ r.err.str ++ ",act=" ++ toString r.act ++
+  "i" ++ toString k ++ ":" ++ ",".intercalate (renderEvs cfg r) ++
+  (if r.act == 9 then "!cbpanic" else
+    ">res=" ++ (match r.res with | some s => toString s | none => "nil") ++
+    ",err=" ++ r.err.str ++ ",act=" ++ toString r.act) ++
   ";rt=" ++ toString r.st.retry ++ ";ec=" ++ r.st.ec.str ++
-  ";x=" ++ (if r.st.cross then "1" else "0") ++ ";cn=" ++ renderConn cfg r.st.conn
+  ";x=" ++ (if r.st.cross then "1" else "0") ++ ";cn=" ++ renderConn cfg r.st.conn ++
+  ";fl=" ++ renderFails cfg r.st.bs
 
 def renderOut (cfg : Cfg) : StepOut → String
   | .inv k r => renderInv cfg k r
   | .fin k act ran panicked conn =>
     "f" ++ toString k ++ ":" ++ (if panicked then "cbpanic" else "act=" ++ toString act) ++
     ";n=" ++ toString ran ++ ";cn=" ++ renderConn cfg conn
-  | .flip isUp b conn =>
-    (if isUp then "u" else "d") ++ toString (flipIndex cfg b) ++ ":cn=" ++ renderConn cfg conn
+  | .flip isUp b conn bs =>
+    (if isUp then "u" else "d") ++ toString (flipIndex cfg b) ++ ":cn=" ++ renderConn cfg conn ++
+    ";fl=" ++ renderFails cfg bs
+  | .removed b conn bs =>
+    "x" ++ toString (flipIndex cfg b) ++ ":cn=" ++ renderConn cfg conn ++ ";fl=" ++ renderFails cfg bs
+  | .deadFin k conn => "f" ++ toString k ++ ":dead;cn=" ++ renderConn cfg conn
   | .bad => "bad"
 
 /-! ### resolving the `randomSelectExclude` oracle against the observed line -/
@@ -199,7 +223,7 @@ def runResolved (sc : Scenario) (implSteps : List String) : G × List (List Nat)
       let want := impl.headD ""
       let pick : List Nat :=
         match st with
-        | .fin _ | .up _ | .down _ => []
+        | .fin _ | .up _ | .down _ | .remove _ => []
         | .inv _ =>
           match space.find? fun ch =>
               match (step realPolicy sc.cfg sc.reqs g st ch).outs with
@@ -231,6 +255,7 @@ structure IStep where
   cn : List (String × Int)
   cross : Bool
   flip : Bool := false
+  fl : String := ""
 
 def parseSnap (s : String) : Option (List (String × Int)) :=
   if s == "0" then some []
@@ -245,7 +270,7 @@ def parseIEv (s : String) : Option IEv :=
     match l.splitOn "~" with
     | [pk, nl] => (parseSnap sn).map fun x => ⟨nl, pk, false, x⟩
     | _ => (parseSnap sn).map fun x => ⟨l, l, false, x⟩
-  | [l] => if l.endsWith "F" then some ⟨(l.dropEnd 1).toString, (l.dropEnd 1).toString, true, []⟩ else none
+  | [l] => if l.endsWith "F" || l.endsWith "P" then some ⟨(l.dropEnd 1).toString, (l.dropEnd 1).toString, true, []⟩ else none
   | _ => none
 
 def fieldAfter (pre : String) (fs : List String) : Option String :=
@@ -264,15 +289,16 @@ def parseIStep (s : String) : Option IStep :=
         match (fieldAfter "cn=" fs).bind parseSnap with
         | none => none
         | some cn =>
-          if c == 'u' || c == 'd' then
-            some ⟨false, k, [], false, false, cn, false, true⟩
+          if c == 'u' || c == 'd' || c == 'x' then
+            some ⟨false, k, [], false, false, cn, false, true, (fieldAfter "fl=" fs).getD ""⟩
           else if c == 'f' then
-            some ⟨false, k, [], (body.splitOn "PANIC").length > 1, body.startsWith "dead", cn, false, false⟩
+            some ⟨false, k, [], (body.splitOn "PANIC").length > 1, body.startsWith "dead", cn, false, false, ""⟩
           else if c == 'i' then
             let panic := (body.splitOn "!PANIC").length > 1
-            let evPart := ((if panic then body.splitOn "!PANIC" else body.splitOn ">").headD "")
+            let cbp := (body.splitOn "!cbpanic").length > 1
+            let evPart := ((if panic then body.splitOn "!PANIC" else if cbp then body.splitOn "!cbpanic" else body.splitOn ">").headD "")
             let evs := if evPart.isEmpty then some [] else (evPart.splitOn ",").mapM parseIEv
-            evs.map fun e => ⟨true, k, e, panic, false, cn, fieldAfter "x=" fs == some "1", false⟩
+            evs.map fun e => ⟨true, k, e, panic, cbp, cn, fieldAfter "x=" fs == some "1", false, (fieldAfter "fl=" fs).getD ""⟩
           else none
     | [] => none
   | [] => none
